@@ -25,6 +25,7 @@ import numpy as np
 
 import common
 import sph_util
+import c11
 from pydrobert.speech import util, _sphere
 
 
@@ -116,7 +117,8 @@ def run(tier, seed):
                             f.write(blob)
                         got = util.read_signal(p, dtype=dtype_arg)
                     else:
-                        got = util.read_signal(io.BytesIO(blob), force_as="sph", dtype=dtype_arg)
+                        stream = io.BytesIO(blob) if k % 4 else io.BufferedReader(c11.NoSeek(blob))  # (k % 4 == 0: a pipe)
+                        got = util.read_signal(stream, force_as="sph", dtype=dtype_arg)
                 except Exception as e:
                     run.violation({"kind": "sphere_read_raised", "case": q, "coding": coding, "channels": nchan, "error": repr(e)})
                     continue
